@@ -365,6 +365,9 @@ class Parser:
         # Convert to float first to handle scientific notation.
         try:
             return IntegerLiteral(stream.current, value=int(float(value)))
+        except OverflowError:
+            # Too big for a double. Behave like a float literal of the same magnitude.
+            return FloatLiteral(stream.current, value=float(value))
         except ValueError as err:
             raise JSONPathSyntaxError(
                 "invalid integer literal", token=stream.current
